@@ -152,3 +152,48 @@ package slip
 //@   property C11
 //@   ensures absent: !result0 ==> (forall j :: (0 <= j && j < len(m.Combinations) && m.Combinations[j].From != nil) ==> Name(m.Combinations[j].From) != from)
 //@   loop rangeindex: invariant scanned: forall j :: (0 <= j && j <= rangeindex && m.Combinations[j].From != nil) ==> Name(m.Combinations[j].From) != from
+
+// ---------------------------------------------------------------------------
+// C16: coerce returns an object of the requested type.
+//@ func slip.coerceToChar
+//@   property C16
+//@   ensures type: is(result, Character)
+//@ func slip.coerceToFixnum
+//@   property C16
+//@   ensures type: is(result, Fixnum)
+//@ func slip.coerceToInteger
+//@   property C16
+//@   ensures type: implements(result, Integer)
+//@ func slip.coerceToBignum
+//@   property C16
+//@   ensures type: is(result, ptr(Bignum))
+//@ func slip.coerceToSingleFloat
+//@   property C16
+//@   ensures type: is(result, SingleFloat)
+//@ func slip.coerceToDoubleFloat
+//@   property C16
+//@   ensures type: is(result, DoubleFloat)
+//@ func slip.coerceToLongFloat
+//@   property C16
+//@   ensures type: is(result, ptr(LongFloat))
+//@ func slip.coerceToComplex
+//@   property C16
+//@   ensures type: is(result, Complex)
+//@ func slip.coerceToSymbol
+//@   property C16
+//@   ensures type: is(result, Symbol)
+//@ func slip.coerceToHashTable
+//@   property C16
+//@   ensures type: is(result, HashTable)
+//@ func slip.coerceToBitVector
+//@   property C16
+//@   ensures type: is(result, ptr(BitVector))
+//@ func slip.coerceToSignedByte
+//@   property C16
+//@   ensures type: is(result, ptr(SignedByte))
+//@ func slip.coerceToUnsignedByte
+//@   property C16
+//@   ensures type: is(result, ptr(UnsignedByte))
+//@ func slip.coerceToBit
+//@   property C16
+//@   ensures type: is(result, Bit)
